@@ -2583,6 +2583,9 @@ start_glib_signal (GMarkupParseContext *context,
     signal->run_first = TRUE;
   else if (g_ascii_strcasecmp (when, "CLEANUP") == 0)
     signal->run_cleanup = TRUE;
+  else
+    /* not a run phase (e.g. "must-collect"): as if the attribute were absent */
+    signal->run_last = TRUE;
 
   if (no_recurse && strcmp (no_recurse, "1") == 0)
     signal->no_recurse = TRUE;
